@@ -383,7 +383,7 @@ func GenDoc(t reflect.Type, c Ch, depth int) *Doc {
 			case 4:
 				d.Obj = append(d.Obj, Member{key, val()}, Member{key, val()})
 			case 5:
-				d.Obj = append(d.Obj, Member{`"zz"`, lit(f.Type, `[1,{"a":2}]`)}, Member{key, val()})
+				d.Obj = append(d.Obj, Member{`"zz"`, lit(f.Type, `[1,{"a":2,"q\\\"":"\\\\\\\"}x]"},"e\\\\"]`)}, Member{key, val()})
 			case 6:
 				d.Obj = append(d.Obj, Member{key, val()}, Member{`"` + name + `x"`, lit(f.Type, "1")})
 			}
